@@ -99,7 +99,7 @@ func genC36(seed uint64, tier string) *Case {
 	from := []string{"n1", "n2", "n3", "x4", "x5", "x6"}
 	n := g.Intn(9)
 	for i := 0; i < n; i++ {
-		c.Steps = append(c.Steps, Step{Op: "re", T: from[g.Intn(len(from))], S: []string{"own", "own", "other", "other", "nil", "malformed", "wrongtype", "empty"}[g.Intn(8)], F: g.Bool(0.12)})
+		c.Steps = append(c.Steps, Step{Op: "re", T: from[g.Intn(len(from))], S: []string{"own", "own", "other", "other", "nil", "malformed", "wrongtype", "empty"}[g.Intn(8)], F: g.Bool(0.12), K: g.Intn(3)})
 	}
 	return c
 }
@@ -133,7 +133,16 @@ func execC36(r *Run) {
 		case "own":
 			payload = encAny(mtConflictResponse, &serf.Member{Name: nd.Name, Addr: local.Addr, Port: local.Port})
 		case "other":
-			payload = encAny(mtConflictResponse, &serf.Member{Name: nd.Name, Addr: net.ParseIP("10.9.9.9").To4(), Port: local.Port})
+			// somebody else holds the name: another address, another port on the same
+			// address, or both
+			om := &serf.Member{Name: nd.Name, Addr: net.ParseIP("10.9.9.9").To4(), Port: local.Port}
+			switch s.K % 3 {
+			case 1:
+				om.Addr, om.Port = local.Addr, local.Port+1
+			case 2:
+				om.Port = local.Port + 1
+			}
+			payload = encAny(mtConflictResponse, om)
 		case "nil":
 			payload = encAny(mtConflictResponse, (*serf.Member)(nil))
 		case "malformed":
@@ -310,7 +319,9 @@ func execC23(r *Run) {
 			}
 			payload = encAny(mtKeyResponse, &wNodeKeyResponse{Result: true, Keys: keys, PrimaryKey: prim})
 		case "failed":
-			payload = encAny(mtKeyResponse, &wNodeKeyResponse{Result: false, Message: "boom"})
+			// a failed reply says so in Result; its message may be empty (that is what a node
+			// sends when it cannot decode the request)
+			payload = encAny(mtKeyResponse, &wNodeKeyResponse{Result: false, Message: []string{"boom", ""}[s.K%2]})
 			r.Fault("failed-reply")
 		case "undecodable":
 			payload = []byte{mtKeyResponse, 0xc1, 0xc1}
